@@ -4,6 +4,7 @@ Driver commands for the wire-level suite (S-e2e): the REAL `RealDriver` (mio pol
 sends the chunks of bytes it wrote, in the order in which they had to be read, and compares the bytes
 that came out of the uinput pipe.
   E2E <chunks>   -> "<hex of wireOut> <number of sends> <read log>"     chunks: `k<hex>` / `t<hex>` joined by `,` (`-` = none)
+  E2EANY <kbd hex> <tablet hex> <out hex> -> "ok" | "no-interleaving"   (`wireAccepts`: is the output `wireOfLog` of SOME interleaving of the two per-device logs?)
   TDEC <hex>     -> the tablet-switch events `decodeTabletStream` yields: `on` / `off` joined by `,` (`-` = none)
 -/
 import TmVerif.Model.EndToEnd
@@ -38,6 +39,10 @@ def handle (L : Layout) (toks : List String) : Option String :=
       some (showHex (wireOfLog L State.init false lg) ++ " " ++ toString (sendsOfLog L State.init false lg)
             ++ " " ++ showList showItem lg)
     | none => none
+  | ["E2EANY", kb, tb, out] =>
+    match parseHex kb, parseHex tb, parseHex out with
+    | some kb, some tb, some out => some (if wireAccepts L kb tb out then "ok" else "no-interleaving")
+    | _, _, _ => none
   | ["TDEC", hex] =>
     match parseHex hex with
     | some bytes => some (showList showTab (decodeTabletStream bytes))
